@@ -7,7 +7,8 @@ import CattrsModel.Subclasses.Lemmas
 
 `SUBCLS <tree> <strategy> <forbid 0|1> <rev 0|1> (<case>…)`
 
-* `<tree>`     `((<parent#|-> (<sfield>…)) …)` one entry per class, class 0 is the root the strategy is applied to;
+* `<tree>`     `((<parent#|-> (<sfield>…)) …)` one entry per class, class 0 is the root the strategy is applied to
+               (or `(listed <that> (<indirect#>…) (<class tuple>…))`, see `treeOfSexp`);
                `<sfield>` = `(<name> <key> <dreq 0|1> <lit> <dv> <omit 0|1>)`, `<name>`/`<key>` string literals,
                `<lit>` = `N` | `(<nat>…)`, `<dv>` = `N` | `<nat>`
 * `<strategy>` `auto` | `(union "<tag name>" (<obj>…))` (one tag per class, in class-index order)
@@ -35,16 +36,27 @@ def sfieldOfSexp : Sexp → Option SField
       pure ⟨sig, dv, om⟩
   | _ => Option.none
 
-def treeOfSexp : Sexp → Option Tree
-  | .list ns => (ns.mapM (fun (n : Sexp) => match n with
+def nodesOfSexp : Sexp → Option (List Node)
+  | .list ns => ns.mapM (fun (n : Sexp) => match n with
       | .list [p, .list fs] => do
           let p ← match p with
             | .atom "-" => some Option.none
             | x => (atomNat? x).map some
           let fs ← fs.mapM sfieldOfSexp
           pure (Node.mk p fs)
-      | _ => Option.none)).map Tree.mk
+      | _ => Option.none)
   | _ => Option.none
+
+/-- `<tree>` = `(<node>…)` | `(listed (<node>…) (<indirect#>…) (<class#>…))` (explicit `subclasses=`: the listed classes,
+re-parented to their nearest listed ancestor; which of them do not have their direct base in the listing; the class
+tuple `(cl, *subclasses)` in the order given, repetitions included) -/
+def treeOfSexp : Sexp → Option Tree
+  | .list [.atom "listed", ns, .list ind, .list order] => do
+      let ns ← nodesOfSexp ns
+      let ind ← ind.mapM atomNat?
+      let order ← order.mapM atomNat?
+      pure { nodes := ns, indirect := ind, order := order }
+  | ns => (nodesOfSexp ns).map (fun l => { nodes := l })
 
 def strategyOfSexp : Sexp → Option Strategy
   | .atom "auto" => some .auto
